@@ -106,3 +106,8 @@ Record site := mk_site {
   s_file : string; s_fun : string; s_kind : string; s_tol : string;
   s_dim : option Z;        (* mass dimension of the quantity the number meets *)
   s_count : nat }.
+
+(** Use of an input parameter inside an entry point (data emitted by tools/gen_units.py):
+    is it consumed on every call ([f_always]) / only under some condition ([f_cond])? *)
+Record flow := mk_flow {
+  f_fun : string; f_param : string; f_always : bool; f_cond : bool }.
